@@ -284,7 +284,7 @@ type Schema struct {
 	Fixed []byte                             // non-metric leaf: constant bytes
 }
 
-var keyAlphabet = []string{"a", "b", "c", "d", "x", "y", "ts", "n", "value", "k1", "inc", "0", "7", ""}
+var keyAlphabet = []string{"a", "b", "c", "d", "x", "y", "ts", "n", "value", "k1", "inc", "0", "7", "", "%util", "usage%", "p%%", "%d", "a.b", "$x", "k k", "é"}
 
 func u64(v uint64) []byte { b := make([]byte, 8); binary.LittleEndian.PutUint64(b, v); return b }
 func u32(v uint32) []byte { b := make([]byte, 4); binary.LittleEndian.PutUint32(b, v); return b }
